@@ -12,53 +12,57 @@ Definition escape_event (e : event) : bool :=
   end.
 Definition benign (evs : list event) : bool := forallb (fun e => negb (escape_event e)) evs.
 
-Definition keeps (a : act) : Prop := forall s, escaped (fst (a s)) = escaped s.
+(* the flag is only ever SET by gen_fail; arming a call or starting a generator clears it *)
+Definition keeps (a : act) : Prop := forall s, escaped (fst (a s)) = true -> escaped s = true.
 
 Lemma k_seq : forall a b, keeps a -> keeps b -> keeps (a ;; b).
-Proof. intros a b Ha Hb s. rewrite seq_fst, Hb, Ha. reflexivity. Qed.
-Lemma k_emit : forall o, keeps (emit o). Proof. intros o s. reflexivity. Qed.
-Lemma k_emits : forall o, keeps (emits o). Proof. intros o s. reflexivity. Qed.
-Lemma k_skip : keeps skip. Proof. intros s. reflexivity. Qed.
-Lemma k_gen_end : keeps gen_end. Proof. intros s. ds s. reflexivity. Qed.
-Lemma k_ogl : keeps on_group_leave. Proof. intros s. pose proof (ogl_fields s) as F. cbv zeta in F. intuition. Qed.
+Proof. intros a b Ha Hb s H. rewrite seq_fst in H. apply Ha. apply Hb. exact H. Qed.
+Lemma k_emit : forall o, keeps (emit o). Proof. intros o s H. exact H. Qed.
+Lemma k_emits : forall o, keeps (emits o). Proof. intros o s H. exact H. Qed.
+Lemma k_skip : keeps skip. Proof. intros s H. exact H. Qed.
+Lemma k_eq : forall (a : act), (forall s, escaped (fst (a s)) = escaped s) -> keeps a.
+Proof. intros a E s H. rewrite E in H. exact H. Qed.
+Lemma k_gen_end : keeps gen_end. Proof. apply k_eq. intros s. ds s. reflexivity. Qed.
+Lemma k_ogl : keeps on_group_leave. Proof. apply k_eq. intros s. pose proof (ogl_fields s) as F. cbv zeta in F. intuition. Qed.
 Lemma k_cancel_gen : forall gid, keeps (cancel_gen gid).
-Proof. intros gid s. pose proof (cancel_gen_fields gid s) as F. cbv zeta in F. intuition. Qed.
+Proof. intros gid. apply k_eq. intros s. pose proof (cancel_gen_fields gid s) as F. cbv zeta in F. intuition. Qed.
 Lemma k_finish_stop : forall st c, keeps (finish_stop st c).
-Proof. intros st c s. unfold finish_stop. ds s. destruct grp; reflexivity. Qed.
+Proof. intros st c. apply k_eq. intros s. unfold finish_stop. ds s. destruct grp; reflexivity. Qed.
 
 Lemma k_stop_tail : forall st, keeps (stop_tail st).
 Proof.
-  intros st s. unfold stop_tail.
+  intros st s H. unfold stop_tail in H.
   assert (X : escaped (fst (match rejoin_d s with Some gid => cancel_gen gid (set_rejoin_d None s) | None => (s, []) end)) = escaped s).
-  { destruct (rejoin_d s); [rewrite k_cancel_gen; ds s; reflexivity|reflexivity]. }
+  { destruct (rejoin_d s) as [gid|]; [|reflexivity]. pose proof (cancel_gen_fields gid (set_rejoin_d None s)) as F. cbv zeta in F.
+    destruct F as (_&_&_&_&_&_&_&_&_&_&F). rewrite F. ds s. reflexivity. }
   destruct (match rejoin_d s with Some gid => cancel_gen gid (set_rejoin_d None s) | None => (s, []) end) as [s1 o1]. cbn [fst] in X.
-  rewrite <- X. ds s1. unfold finish_stop. destruct sd; destruct grp; reflexivity.
+  rewrite <- X. ds s1. unfold finish_stop in H. destruct sd; destruct grp; exact H.
 Qed.
 
 Lemma k_coord_stop : forall st, keeps (coord_stop st).
 Proof.
   intros st s. ds s. destruct sd as [idx|]; [|unfold coord_stop; cbn [start_d]; apply k_finish_stop].
   destruct stp; [unfold coord_stop; cbn [start_d stopping]; apply k_finish_stop|].
-  destruct dc0 as [|i|]; [| |unfold coord_stop; cbn [start_d stopping dc set_rejoin_needed set_stopping]; rewrite k_finish_stop; reflexivity];
+  destruct dc0 as [|i|]; [| |unfold coord_stop; cbn [start_d stopping dc set_rejoin_needed set_stopping]; intros H; apply k_finish_stop in H; exact H];
     destruct hbq as [rid|]; destruct hbr; destruct ck; destruct (mem =? 0) eqn:M;
     unfold coord_stop, hb_stop, remove_timer; prj; rewrite ?M; prj.
   all: try match goal with |- context [stop_tail ?st0 ?s0] =>
-         let Y := fresh in pose proof (k_stop_tail st0 s0) as Y; destruct (stop_tail st0 s0) as [s3 o4]; prj; exact Y end.
-  all: reflexivity.
+         let Y := fresh "Y" in pose proof (k_stop_tail st0 s0) as Y; destruct (stop_tail st0 s0) as [s3 o4]; prj; exact Y end.
+  all: auto.
 Qed.
 
 Lemma k_do_stop : forall idx err, keeps (do_stop idx err).
 Proof.
-  intros idx err s. unfold do_stop. destruct (is_group s).
-  - destruct (consumers (set_stop_requested true s)); [rewrite k_coord_stop; ds s; reflexivity|]. unfold begin_shutdown. ds s. reflexivity.
-  - apply k_coord_stop.
+  intros idx err s H. unfold do_stop in H. destruct (is_group s).
+  - destruct (consumers (set_stop_requested true s)); [apply k_coord_stop in H; ds s; exact H|]. unfold begin_shutdown in H. ds s. exact H.
+  - apply k_coord_stop in H. exact H.
 Qed.
 Lemma k_fatal : forall k, keeps (fatal k). Proof. intros k. unfold fatal. apply k_seq; [apply k_ogl|apply k_do_stop]. Qed.
 Lemma k_schedule_rejoin : forall d, keeps (schedule_rejoin d).
-Proof. intros d s. unfold schedule_rejoin, new_timer. ds s. destruct dc0; reflexivity. Qed.
+Proof. intros d s H. unfold schedule_rejoin, new_timer in H. ds s. destruct dc0; cbn in H; auto; discriminate. Qed.
 Lemma k_resched : forall d, keeps (resched d).
-Proof. intros d s. unfold resched. destruct (stopping s); [reflexivity|apply k_schedule_rejoin]. Qed.
-Lemma k_upd_member : keeps (upd (set_member 0)). Proof. intros s. ds s. reflexivity. Qed.
+Proof. intros d s H. unfold resched in H. destruct (stopping s); [exact H|apply k_schedule_rejoin in H; exact H]. Qed.
+Lemma k_upd_member : keeps (upd (set_member 0)). Proof. apply k_eq. intros s. ds s. reflexivity. Qed.
 
 Lemma k_rae : forall k, keeps (rejoin_after_error k).
 Proof.
@@ -72,99 +76,104 @@ Proof.
   - apply k_resched.
   - apply k_seq; [apply k_ogl|apply k_seq; [apply k_emit|apply k_resched]].
   - apply k_resched.
-  - intros s. destruct (stopping s); [reflexivity|apply k_fatal].
+  - intros s. destruct (stopping s); [auto|apply k_fatal].
   - apply k_fatal.
 Qed.
 
-Lemma gen_fail_esc : forall k s, escaped (fst (gen_fail k s)) = escaped s || negb (is_kafka k).
+Lemma gen_fail_esc : forall k s, escaped (fst (gen_fail k s)) = true -> escaped s = true \/ is_kafka k = false.
 Proof.
-  intros k s. unfold gen_fail. rewrite seq_fst. destruct (is_kafka k).
-  - rewrite k_rae, k_gen_end. rewrite orb_false_r. reflexivity.
-  - unfold upd, gen_end. ds s. cbn. rewrite orb_true_r. reflexivity.
+  intros k s H. unfold gen_fail in H. rewrite seq_fst in H. destruct (is_kafka k); [|right; reflexivity].
+  left. apply k_rae in H. apply k_gen_end in H. exact H.
 Qed.
+Lemma k_gen_fail_kafka : forall k, is_kafka k = true -> keeps (gen_fail k).
+Proof. intros k K s H. destruct (gen_fail_esc k s H); [auto|congruence]. Qed.
 
 Lemma k_coord_retry_end : forall d, keeps (coord_retry d ;; gen_end).
-Proof. intros d s. rewrite seq_fst. ds s. reflexivity. Qed.
-Lemma k_send_join : forall gid, keeps (send_join gid). Proof. intros gid s. ds s. reflexivity. Qed.
-Lemma k_send_sync : forall gid ld, keeps (send_sync gid ld). Proof. intros gid ld s. ds s. reflexivity. Qed.
+Proof. intros d s H. rewrite seq_fst in H. ds s. cbn in H. discriminate. Qed.
+Lemma k_send_join : forall gid, keeps (send_join gid). Proof. intros gid. apply k_eq. intros s. ds s. reflexivity. Qed.
+Lemma k_send_sync : forall gid ld, keeps (send_sync gid ld). Proof. intros gid ld. apply k_eq. intros s. ds s. reflexivity. Qed.
 Lemma k_prepare_and_join : forall gid, keeps (prepare_and_join gid).
 Proof.
-  intros gid s. unfold prepare_and_join. destruct (is_group s); [|apply k_send_join].
-  destruct (consumers s) eqn:C; [apply k_send_join|]. unfold begin_shutdown. ds s. reflexivity.
+  intros gid s H. unfold prepare_and_join in H. destruct (is_group s); [|apply k_send_join in H; exact H].
+  destruct (consumers s) eqn:C; [apply k_send_join in H; exact H|]. unfold begin_shutdown in H. ds s. exact H.
 Qed.
 Lemma k_after_prepare : forall gid, keeps (after_prepare gid).
-Proof. intros gid s. unfold after_prepare. destruct (stop_pend s); [apply k_gen_end|apply k_send_join]. Qed.
+Proof. intros gid s H. unfold after_prepare in H. destruct (stop_pend s); [apply k_gen_end in H|apply k_send_join in H]; exact H. Qed.
 Lemma k_join_and_sync : keeps join_and_sync.
 Proof.
-  intros s. unfold join_and_sync. destruct (is_group s && stop_requested s).
-  - destruct (dc s); ds s; reflexivity.
-  - destruct (negb (rejoin_needed (set_dc DcNone s))); [ds s; reflexivity|].
-    destruct (rejoin_d (set_dc DcNone s)); ds s; reflexivity.
+  intros s H. unfold join_and_sync in H. destruct (is_group s && stop_requested s).
+  - destruct (dc s); ds s; exact H.
+  - destruct (negb (rejoin_needed (set_dc DcNone s))); [ds s; exact H|].
+    destruct (rejoin_d (set_dc DcNone s)); ds s; cbn in H; auto; discriminate.
 Qed.
 Lemma k_on_join_complete : forall asg, keeps (on_join_complete asg).
 Proof.
-  intros asg s. unfold on_join_complete. destruct (is_group s); [|reflexivity]. destruct (stop_requested s); [reflexivity|].
+  intros asg. apply k_eq. intros s. unfold on_join_complete. destruct (is_group s); [|reflexivity]. destruct (stop_requested s); [reflexivity|].
   destruct (start_consumers_spec (group_by_topic asg) s) as [SC _]. unfold same_core in SC.
+  destruct SC as (_&_&_&_&_&_&_&_&_&_&_&_&_&_&_&_&E). rewrite E. ds s. reflexivity.
+Qed.
+Lemma k_start_consumers : forall tps, keeps (start_consumers tps).
+Proof.
+  intros tps. apply k_eq. intros s. destruct (start_consumers_spec tps s) as [SC _]. unfold same_core in SC.
   destruct SC as (_&_&_&_&_&_&_&_&_&_&_&_&_&_&_&_&E). rewrite E. ds s. reflexivity.
 Qed.
 Lemma k_with_gen : forall ph (k : gen -> act), (forall g, keeps (k g)) -> keeps (with_gen ph k).
 Proof.
-  intros ph k H s. unfold with_gen. destruct (take_first (awaits ph) (gens s)) as [[g rest]|]; [|reflexivity].
-  rewrite H. ds s. reflexivity.
+  intros ph k H s X. unfold with_gen in X. destruct (take_first (awaits ph) (gens s)) as [[g rest]|]; [|exact X].
+  apply H in X. ds s. exact X.
 Qed.
+Lemma k_upd_eq : forall f, (forall s, escaped (f s) = escaped s) -> keeps (upd f).
+Proof. intros f E. apply k_eq. intros s. apply E. Qed.
+Lemma k_reset_hb : keeps reset_heartbeat_timer.
+Proof. apply k_eq. intros s. rewrite reset_hb_fst. ds s. reflexivity. Qed.
 
 (* a step sets the flag only if the event is one of the listed ones *)
 Lemma step_escaped : forall s e, escaped (fst (step s e)) = true -> escaped s = true \/ escape_event e = true.
 Proof.
-  intros s e H. destruct (escape_event e) eqn:EE; [right; reflexivity|left]. rewrite <- H. symmetry.
-  destruct e; cbn [step].
-  - destruct (start_d s); [reflexivity|]. match goal with |- context [join_and_sync ?x] => pose proof (k_join_and_sync x) as J; destruct (join_and_sync x) end.
-    cbn [fst] in *. rewrite J. ds s. reflexivity.
-  - match goal with |- context [do_stop ?a ?b ?x] => pose proof (k_do_stop a b x) as J; destruct (do_stop a b x) end.
-    cbn [fst] in *. rewrite J. ds s. reflexivity.
-  - unfold on_lookup. apply k_with_gen. intros g. destruct r as [| |k].
-    + intros s0. ds s0. reflexivity.
+  intros s e H. destruct (escape_event e) eqn:EE; [right; reflexivity|left].
+  assert (W : forall (a : act), keeps a -> escaped (fst (a s)) = true -> escaped s = true) by (intros a K; apply K).
+  destruct e; cbn [step] in H.
+  - destruct (start_d s); [exact H|]. match type of H with context [join_and_sync ?x] => pose proof (k_join_and_sync x) as J; destruct (join_and_sync x) end.
+    cbn [fst] in *. apply J in H. ds s. exact H.
+  - match type of H with context [do_stop ?a ?b ?x] => pose proof (k_do_stop a b x) as J; destruct (do_stop a b x) end.
+    cbn [fst] in *. apply J in H. ds s. exact H.
+  - revert H. apply W. unfold on_lookup. apply k_with_gen. intros g. destruct r as [| |k].
+    + apply k_eq. intros s0. ds s0. reflexivity.
     + apply k_coord_retry_end.
     + cbn in EE. destruct k; try discriminate; try apply k_coord_retry_end.
-  - unfold on_meta. apply k_with_gen. intros g. destruct r as [|k].
-    + intros s0. destruct (stop_pend s0); [apply k_gen_end|]. rewrite k_prepare_and_join. ds s0. reflexivity.
-    + intros s0. rewrite gen_fail_esc. cbn in EE. rewrite EE. apply orb_false_r.
-  - unfold on_join. apply k_with_gen. intros g. destruct r as [gn mem role|k].
-    + intros s0. rewrite seq_fst. unfold upd. cbn [fst]. cbv beta.
-      set (s1 := set_cur_assign [] (set_generation gn (set_member mem s0))).
-      assert (E1 : escaped s1 = escaped s0) by (subst s1; destruct s0; reflexivity). rewrite <- E1. clearbody s1.
-      destruct (stop_pend s1); [apply k_gen_end|]. cbn in EE.
-      destruct (role =? 0); [apply k_send_sync|]. destruct (role =? 1); [destruct s1; reflexivity|discriminate].
+  - revert H. apply W. unfold on_meta. apply k_with_gen. intros g. destruct r as [|k].
+    + intros s0 X. destruct (stop_pend s0); [apply k_gen_end in X; exact X|]. apply k_prepare_and_join in X. ds s0. exact X.
+    + apply k_gen_fail_kafka. cbn in EE. destruct (is_kafka k); [reflexivity|discriminate].
+  - revert H. apply W. unfold on_join. apply k_with_gen. intros g. destruct r as [gn' mem' role|k]; [|apply k_seq; [apply k_rae|apply k_gen_end]].
+    apply k_seq; [apply k_upd_eq; intros s0; destruct s0; reflexivity|].
+    intros s0 X. destruct (stop_pend s0); [apply k_gen_end in X; exact X|]. cbn in EE.
+    destruct (role =? 0); [apply k_send_sync in X; exact X|]. destruct (role =? 1); [destruct s0; exact X|discriminate].
+  - revert H. apply W. unfold on_parts. apply k_with_gen. intros g. destruct r as [| |k]; try discriminate.
+    + intros s0 X. destruct (stop_pend s0); [apply k_gen_end in X|apply k_send_sync in X]; exact X.
+    + apply k_gen_fail_kafka. cbn in EE. destruct (is_kafka k); [reflexivity|discriminate].
+  - revert H. apply W. unfold on_sync. apply k_with_gen. intros g. destruct r as [asg| | |k|asg n]; try discriminate.
+    + intros s0 X. destruct (stop_pend s0); [apply k_gen_end in X; exact X|]. revert s0 X.
+      repeat apply k_seq; try apply k_reset_hb; try apply k_on_join_complete; try apply k_gen_end; apply k_upd_eq; intros s0; destruct s0; reflexivity.
+    + intros s0 X. destruct (stop_pend s0); [apply k_gen_end in X; exact X|]. apply (k_gen_fail_kafka KOtherKafka eq_refl) in X. exact X.
     + apply k_seq; [apply k_rae|apply k_gen_end].
-  - unfold on_parts. apply k_with_gen. intros g. destruct r as [| |k]; try discriminate.
-    + intros s0. destruct (stop_pend s0); [apply k_gen_end|apply k_send_sync].
-    + intros s0. rewrite gen_fail_esc. cbn in EE. rewrite EE. apply orb_false_r.
-  - unfold on_sync. apply k_with_gen. intros g. destruct r as [asg| | |k|asg n]; try discriminate.
-    + intros s0. destruct (stop_pend s0); [apply k_gen_end|].
-      rewrite !seq_fst. unfold upd at 1 2, gen_end. cbn [fst]. rewrite reset_hb_fst.
-      match goal with |- escaped (fst (upd _ ?x)) = _ => rewrite (k_gen_end x || eq_refl) end || idtac.
-      unfold upd. cbn [fst]. match goal with |- escaped (set_rejoin_d None ?x) = _ => transitivity (escaped x); [destruct x; reflexivity|] end.
-      rewrite k_on_join_complete. ds s0. reflexivity.
-    + intros s0. destruct (stop_pend s0); [apply k_gen_end|]. rewrite gen_fail_esc. apply orb_false_r.
-    + apply k_seq; [apply k_rae|apply k_gen_end].
-  - unfold on_tick. destruct (hb_running s); [|reflexivity]. destruct (_ || _); [reflexivity|ds s; reflexivity].
-  - unfold on_hb_reply. destruct (hb_req s); [|reflexivity]. destruct (_ =? _); [|reflexivity]. destruct r; [ds s; reflexivity|].
-    destruct (hb_running _); [|ds s; reflexivity]. rewrite seq_fst, k_rae. ds s. reflexivity.
-  - unfold on_fire. destruct (existsb _ _); [|reflexivity]. rewrite k_join_and_sync. unfold remove_timer. ds s.
-    destruct dc0 as [|i|]; cbn; try (destruct (i =? id)); reflexivity.
-  - unfold on_leave. destruct (take_first _ _) as [[st rest]|]; [|reflexivity]. rewrite k_stop_tail. destruct r; ds s; reflexivity.
-  - unfold on_cfail. destruct (can_fail cid s); [|reflexivity].
-    match goal with |- context [rejoin_after_error k ?x] => set (s1 := x) end.
-    assert (E1 : escaped s1 = escaped s) by (subst s1; ds s; reflexivity).
-    destruct k; try (rewrite k_rae; exact E1). destruct (consumers s1); [exact E1|rewrite k_rae; exact E1].
-  - unfold on_cshut. destruct (take_first (fun g => sh_has cid (gen_list g)) (gens s)) as [[g rest]|].
+  - unfold on_tick in H. destruct (hb_running s); [|exact H]. destruct (_ || _); [exact H|ds s; exact H].
+  - unfold on_hb_reply in H. destruct (hb_req s); [|exact H]. destruct (_ =? _); [|exact H]. destruct r; [ds s; exact H|].
+    destruct (hb_running _); [|ds s; exact H]. rewrite seq_fst in H. apply k_rae in H. ds s. exact H.
+  - unfold on_fire in H. destruct (existsb _ _); [|exact H]. apply k_join_and_sync in H. unfold remove_timer in H. ds s.
+    destruct dc0 as [|i|]; cbn in H; try (destruct (i =? id)); exact H.
+  - unfold on_leave in H. destruct (take_first _ _) as [[st rest]|]; [|exact H]. apply k_stop_tail in H. destruct r; ds s; exact H.
+  - unfold on_cfail in H. destruct (can_fail cid s); [|exact H].
+    match type of H with context [rejoin_after_error k ?x] => set (s1 := x) in * end.
+    assert (E1 : escaped s1 = escaped s) by (subst s1; ds s; reflexivity). rewrite <- E1. clearbody s1.
+    destruct k; cbv beta iota in H; try (apply k_rae in H; exact H). destruct (consumers s1); [exact H|apply k_rae in H; exact H].
+  - unfold on_cshut in H. destruct (take_first (fun g => sh_has cid (gen_list g)) (gens s)) as [[g rest]|].
     + destruct ok.
-      * destruct (sh_all_done _); [rewrite k_after_prepare|]; ds s; reflexivity.
-      * rewrite emits_fst, k_after_prepare. ds s. reflexivity.
-    + destruct (take_first (fun st => sh_has cid (stop_list st)) (stops s)) as [[st rest]|]; [|reflexivity].
+      * destruct (sh_all_done _); [apply k_after_prepare in H|]; ds s; exact H.
+      * rewrite emits_fst in H. apply k_after_prepare in H. ds s. exact H.
+    + destruct (take_first (fun st => sh_has cid (stop_list st)) (stops s)) as [[st rest]|]; [|exact H].
       destruct ok.
-      * destruct (sh_all_done _); [rewrite k_coord_stop|]; ds s; reflexivity.
-      * rewrite emits_fst, k_coord_stop. ds s. reflexivity.
+      * destruct (sh_all_done _); [apply k_coord_stop in H|]; ds s; exact H.
+      * rewrite emits_fst in H. apply k_coord_stop in H. ds s. exact H.
 Qed.
 
 Lemma benign_not_escaped : forall grp evs, benign evs = true -> escaped (state_after grp evs) = false.
